@@ -71,6 +71,9 @@ impl Prop for C11 {
                 }
             }
         }
+        for g in crate::huge::huge_cases() {
+            v.push(ClusterCase { g, subset: 0, count_zeros: true });
+        }
         v
     }
     fn strategy(&self, _tier: Tier) -> BoxedStrategy<ClusterCase> {
@@ -105,6 +108,16 @@ impl Prop for C11 {
         tier.pick(250_000, 2_500_000)
     }
     fn check(&self, case: &ClusterCase) -> Outcome {
+        if case.g.big_n > 60_000 {
+            // the fixed huge-graph cases (more than 2^16 nodes), sampled queries and linear oracles
+            let mut out = Outcome::new();
+            let ng = case.g.norm();
+            let g = ng.build();
+            crate::huge::cluster(&g, &ng, &mut out);
+            out.class("huge_graph_66003_nodes");
+            out.nontrivial = true;
+            return out;
+        }
         let mut out = Outcome::new();
         let ng = case.g.norm();
         let mut graph = ng.build();
